@@ -436,7 +436,7 @@ def version_digest(v1: str, v2: str, w1: str, w2: str):
 
 VarT = Union[None, bool, int]
 VAR_STRS = ["", "a", "ab", "1", "None", "true", "é\n"]
-CONTAINERS = ["bare", "list", "tuple", "dict", "nested-list", "list-vs-tuple", "bytes"]
+CONTAINERS = ["bare", "list", "tuple", "dict", "nested-list", "list-vs-tuple", "bytes", "dict-key"]
 
 
 @obligation(
@@ -444,7 +444,7 @@ CONTAINERS = ["bare", "list", "tuple", "dict", "nested-list", "list-vs-tuple", "
     covers=("tracked", "different", "same"),
     split={"shape": CONTAINERS},
     bounds="GlobalVariableHashRule._serialize_value on two values a, b (None / bool / int in [-3, 12] symbolic, or strings from a catalogue "
-           "of %d incl. look-alikes) bare or in a list / tuple / dict / nested list, tuple versus list, and bytes values: the value is "
+           "of %d incl. look-alikes) bare or in a list / tuple / dict / nested list, as the key of a dict, tuple versus list, and bytes values: the value is "
            "tracked (not None) and the serialisation is injective" % len(VAR_STRS),
     variables="data: a, b; choice: string indices, shape",
     budget_s={"quick": 170, "thorough": 300},
@@ -453,6 +453,10 @@ CONTAINERS = ["bare", "list", "tuple", "dict", "nested-list", "list-vs-tuple", "
 def variable_serialisation(a: VarT, b: VarT, sa: int, sb_: int, shape: str):
     sa = pick(sa, len(VAR_STRS) + 1)
     sb_ = pick(sb_, len(VAR_STRS) + 1)
+    if shape == "dict-key":
+        # a lookup table keyed by None / bool / int, or by strings; one table has keys of one kind ({1: ..} and {"1": ..} are written alike,
+        # which is outside this claim)
+        assume((sa == 0) == (sb_ == 0))
     a = VAR_STRS[sa - 1] if sa else a
     b = VAR_STRS[sb_ - 1] if sb_ else b
     for v in (a, b):
@@ -470,6 +474,8 @@ def variable_serialisation(a: VarT, b: VarT, sa: int, sb_: int, shape: str):
             return {"k": v}
         if shape == "nested-list":
             return [[v], []]
+        if shape == "dict-key":
+            return {v: "x"}
         if shape == "list-vs-tuple":
             return (v,) if other else [v]
         return b"\x00" if other else b"\x01"
